@@ -51,9 +51,10 @@ def analyse(prop, root):
             elif f.prop in also and f.rule in also[f.prop]:
                 g = Finding(prop, f.rule, f.file, f.func, f.construct, f.msg, f.witness); mine.append(g)
         recorded = [o for o in util.STATS.obligations[n_ob0:] if o["prop"] == prop or (o["prop"] in also and o["rule"] in also[o["prop"]])]
-        served = {p for p, lst in registry.RULES.items() if any(n == fn.__name__ for _, n in lst)}
+        shared_only = getattr(registry, "SHARED_ONLY", set())
+        served = {p for p, lst in registry.RULES.items() if any(n == fn.__name__ for _, n in lst) and (p, fn.__name__) not in shared_only}
         rest = inst - len(util.STATS.obligations[n_ob0:])
-        if rest > 0:
+        if rest > 0 and (prop, fn.__name__) not in shared_only:
             # instances the rule function counted without recording them one by one: attributed to this property
             # in full if the function serves it alone, else an equal share (at least one)
             share = rest if len(served) == 1 else max(1, rest // len(served))
